@@ -150,6 +150,12 @@ CURATED_GAS = [
     'OC(=O)C(=O)O', 'CC(=O)OC(C)=O', 'OO', 'COO',
     # alkynes
     'CC#CC', 'C#CC=C',
+    # one molecule / mixture reaching a correction name through two scheme entries
+    r'C/C=C\CCC=C(C)C', 'CC(C)C(C)CCCCC(C)(C)CC', 'CCC(C)(C)C.CC(C)C(C)C',
+    # radical centres next to substituted double bonds
+    'CC([CH2])=CC', 'C[CH]C(C)=CC', 'CC([CH2])=C(C)C', '[CH2]C=CC', 'C=C([CH2])C',
+    # remap source before / after a direct instance of the remap target
+    'COCC', 'CCOC', 'CC=CCC', 'CCC=CC', 'CC(=O)CC', 'CCC(=O)C',
 ]
 CURATED_FUSED = ['Cc1cccc2ccccc12', 'Oc1cccc2ccccc12', 'c1ccc2ccccc2c1',
                  'c1ccc2cc3ccccc3cc2c1', 'c1ccc2c(c1)ccc1ccccc12']
@@ -159,6 +165,8 @@ CURATED_SURFACE = [
     '[Pt]OC([Pt])C', 'C([Pt])C(O)C[Pt]', 'OC(C([Pt])[Pt])C', 'O=C([Pt])C[Pt]',
     '[Pt]C(O)C(O)[Pt]', 'C([Pt])([Pt])=C([Pt])[Pt]', '[Pt]C#C[Pt]',
     'O[Pt]', '[H][Pt]', 'O=[Pt]', '[Pt]C([Pt])([Pt])[Pt]',
+    # physisorbed species: '~' (unspecified / weak) bonds to the surface
+    'O=C(=O)~[Pt]', 'C~[Pt]', 'O~[Pt]', 'CO~[Pt]', 'C=C~[Pt]',
 ]
 CURATED_RU = [s.replace('Pt', 'Ru') for s in CURATED_SURFACE] + [
     'C([Ru])C([Ru])O', 'OC(O)C([Ru])([Ru])', 'CC(=O)O[Ru]']
@@ -176,7 +184,8 @@ def canon(smi):
 # order as dot-separated bracket atoms with ring-closure numbers for bonds.
 
 _SYM = {Chem.BondType.SINGLE: '-', Chem.BondType.DOUBLE: '=',
-        Chem.BondType.TRIPLE: '#', Chem.BondType.AROMATIC: ':'}
+        Chem.BondType.TRIPLE: '#', Chem.BondType.AROMATIC: ':',
+        Chem.BondType.UNSPECIFIED: '~', Chem.BondType.DATIVE: '->'}
 
 
 def writer(mol, order, aromatic=False):
